@@ -33,6 +33,20 @@ def check(seed, tier):
         raise core.ToolError("MC_Determinism_lastwins: expected TLC to show that last-wins de-duplication is order dependent")
     rep.add_tlc(r)
     meta = core.gen("C23", seed, tier, shards=8)
+    # search heuristic statistics (not a verdict): inputs whose optimised IR differed between fresh processes got boosted runs
+    import json as _json
+    ir_unstable = boosted_runs = 0
+    for f in meta["files"]:
+        with open(f) as fh:
+            for line in fh:
+                if line.startswith('{"boost"') or '"ev":"reset"' in line[:400]:
+                    try:
+                        e = _json.loads(line)
+                    except ValueError:
+                        continue
+                    if e.get("ev") == "reset" and e.get("ir_distinct", 0) > 1:
+                        ir_unstable += 1
+                        boosted_runs += e.get("runs_done", 0)
     core.validate_traces(rep, TRACE_SPEC, meta["files"], parallel=8, timeout=3600)
 
     def mutate(evs):
@@ -54,6 +68,9 @@ def check(seed, tier):
         "rule": "one case = one generated input (2-6 functions calling all trigger symbols) analysed N times in fresh processes, all 19 "
                 "checks, odd runs with reversed --partial order; non-trivial = the output has >= 4 warnings; distinct by case hash",
         "samples": [str(s)[:1200] for s in meta["samples"][:1]],
-        "runs_per_input": 10 if tier == "quick" else 16,
+        "runs_per_input": 8 if tier == "quick" else 16,
+        "ir_probe": {"probes_per_input": 6, "boost_factor": 8, "inputs_with_hash_dependent_ir": ir_unstable, "boosted_runs": boosted_runs,
+                     "role": "search heuristic only: `--debug ir-opt` output compared across fresh processes selects inputs for 8x as many "
+                             "full runs; the verdict is on the warning output alone"},
         "mc_runs": rep.cov.get("mc_runs"), "trusted_base": TRUSTED,
     }, ["fresh processes give fresh RandomState seeds; thread scheduling of the log collector is whatever the OS does during the runs"])
